@@ -145,11 +145,12 @@ func (r *replicator) GetQueue() []cid.Cid {
 	r.muProcess.Lock()
 	defer r.muProcess.Unlock()
 
-	fetching := make([]cid.Cid, r.queue.Len())
-	i := 0
-	for c := range r.tasks {
-		fetching[i] = c
-		i++
+	// the unfinished tasks: queued or being fetched
+	fetching := make([]cid.Cid, 0, r.queue.Len())
+	for c, state := range r.tasks {
+		if state != stateFetched {
+			fetching = append(fetching, c)
+		}
 	}
 
 	return fetching
